@@ -39,6 +39,8 @@ var tokenAlphabet = []string{
 	"1/ 6", "1 /6", "3 / 4", "// c",
 	// numerals that are long only because of leading zeros
 	"00000000000000000042", "-000000000000000000000042", "08/10", "1/09",
+	// portions that are zero, not in lowest terms, above one, or 0/0
+	"0/0", "0/7", "4/6", "7/3", "0%",
 }
 
 var alphaN = strconv.Itoa(len(tokenAlphabet))
